@@ -2,11 +2,14 @@
 
    Model: one Model-V network shared by N NetQASM hosts, host i drives node i (nst).  Host-level actions (nact):
      AInstr i q                       one subroutine instruction / init / stop of host i        (Exec.exec, unchanged)
-     ACreate i app a known r adj sk   create-and-keep of ONE pair by application `app` of host i towards node r
+     ACreate i app a known r adj sk coins
+                                      create-and-keep of ONE pair by application `app` of host i towards node r
                                       (_do_create_epr: qubit_id = _get_unused_physical_qubit; cmd_epr = EprGate.cmd_epr_keep;
                                        on success the half is appended to node r's list for socket sk
                                        (netqasm_add_epr_list) and the kept half is mapped to the virtual address a
-                                       (_handle_epr_ok_k_response -> _allocate_physical_qubit: bind_host))
+                                       (_handle_epr_ok_k_response -> _allocate_physical_qubit: bind_host);
+                                       on failure after a temporary exists the temporaries are measured out again
+                                       (coins: the coins of those measurements) and the physical id is released)
      ARecv i app a sk                 host i polls its node's list for socket sk (cmd_epr_recv: netqasm_get_epr_recv, popleft);
                                       a delivered half is entered into qubitList under the smallest unused physical id
                                       and mapped to the virtual address a; nothing delivered: nothing changes (timeout)
@@ -16,15 +19,19 @@
    with the number).  The fourth component (the handle of the delivered qubit) is GHOST: never read by nstep_r; the
    invariant proves that the lookup returns exactly it (pending_lookup_faithful).
 
-   Excluded by `clean` (and said so in the theorems): (1) a pair creation refused AFTER a temporary exists (second
-   cmd_new refused or receiver refuses the half): the known defect C11:epr-temporaries, refuted in EprGate.v;
-   (2) binding a created / received half to a virtual address that is not a free address of the application's unit module
+   A pair creation refused AFTER a temporary exists (second cmd_new refused or the receiver refuses the half) used to be
+   excluded: the former defect C11:epr-temporaries.  Since its repair (fixes/D16ii-epr-temporaries.diff) cmd_epr removes its
+   temporaries before re-raising, and such creations are ordinary actions here: epr_keep_failure_effect /
+   failed_creation_restores show that they leave every host and every node's list of held qubits exactly as they were.
+
+   Excluded by `clean` (and said so in the theorems):
+   (1) binding a created / received half to a virtual address that is not a free address of the application's unit module
    (address in use: the code keeps the response pending and retries; no such address: it raises; the model describes neither);
-   (3) as in Teardown.v: initialising an application id that still has a unit module. *)
+   (2) as in Teardown.v: initialising an application id that still has a unit module. *)
 From Coq Require Import List Bool Arith Lia.
 From SQ Require Import Base.ListUtil Stab.Tableau Net.Model Net.Refusal Net.Handles Net.Inv Net.InvNew Net.InvStep
   Net.Bookkeeping Net.Population Net.NonEmpty Net.PerNode Qasm.Exec Qasm.ExecProps Qasm.Teardown Qasm.TeardownFull
-  Qasm.EprGate Qasm.PerNodeNum Qasm.TeardownX.
+  Qasm.EprGate Qasm.PerNodeNum Qasm.TeardownX Qasm.EprFailNode.
 Import ListNotations.
 
 Local Arguments step : simpl never.
@@ -41,7 +48,7 @@ Definition ninit (caps : list (nat * nat)) : nst := mkN (init_net caps) (map (fu
 
 Inductive nact :=
 | AInstr (i : nat) (q : qinstr)
-| ACreate (i app a : nat) (known : list nat) (r : nat) (adj : bool) (rsock : nat)
+| ACreate (i app a : nat) (known : list nat) (r : nat) (adj : bool) (rsock : nat) (coins : list bool)
 | ARecv (i app a sock : nat).
 
 Definition addr_free (h : host) (app a : nat) : option (list (option nat)) :=
@@ -73,10 +80,10 @@ Definition nstep_r (s : nst) (x : nact) : nst * qres :=
         let '(s', r, _) := exec i (mkQ (n_net s) (host_at s i)) q in
         (mkN (q_net s') (upd (n_hosts s) i (q_host s')) (n_pend s), r)
       else (s, RErr)
-  | ACreate i app a known r adj rsock =>
+  | ACreate i app a known r adj rsock coins =>
       if Nat.ltb i (length (n_hosts s)) then
         let qid := fresh_id (h_used (host_at s i)) in
-        let '(s1, res, tr) := cmd_epr_keep i (mkQ (n_net s) (host_at s i)) known r adj qid in
+        let '(s1, res, tr) := cmd_epr_keep i (mkQ (n_net s) (host_at s i)) known r adj qid coins in
         match res with
         | RDone None => (mkN (q_net s1) (upd (n_hosts s) i (map_addr (q_host s1) app a qid))
                           (n_pend s ++ [(r, rsock, sent_num tr, pred (next_hid (q_net s1)))]), res)
@@ -106,18 +113,18 @@ Definition nstep (s : nst) (x : nact) : nst := fst (nstep_r s x).
 Definition nrun (s : nst) (xs : list nact) : nst := fold_left nstep xs s.
 
 (* ---- what is excluded ------------------------------------------------------------------------------------------------------------ *)
-Definition leaves_temporaries (i : nat) (s : qst) known r adj qid : Prop :=
-  snd (fst (cmd_epr_keep i s known r adj qid)) <> RDone None /\
-  exists v, In (ONew i, Ok v) (snd (cmd_epr_keep i s known r adj qid)).
+(* a creation that fails after a temporary qubit exists: no longer excluded (see failed_creation_is_clean) *)
+Definition fails_after_temporary (i : nat) (s : qst) known r adj qid coins : Prop :=
+  snd (fst (cmd_epr_keep i s known r adj qid coins)) <> RDone None /\
+  exists v, In (ONew i, Ok v) (snd (cmd_epr_keep i s known r adj qid coins)).
 
 Definition clean (s : nst) (x : nact) : Prop :=
   match x with
   | AInstr i q => fresh_init (mkQ (n_net s) (host_at s i)) q
-  | ACreate i app a known r adj rsock =>
+  | ACreate i app a known r adj rsock coins =>
       let qs := mkQ (n_net s) (host_at s i) in
       let qid := fresh_id (h_used (host_at s i)) in
-      ~ leaves_temporaries i qs known r adj qid /\
-      (snd (fst (cmd_epr_keep i qs known r adj qid)) = RDone None -> addr_free (host_at s i) app a <> None)
+      snd (fst (cmd_epr_keep i qs known r adj qid coins)) = RDone None -> addr_free (host_at s i) app a <> None
   | ARecv i app a sock => take_pend i sock (n_pend s) <> None -> addr_free (host_at s i) app a <> None
   end.
 Fixpoint cleans (s : nst) (xs : list nact) : Prop :=
@@ -189,48 +196,272 @@ Qed.
 Lemma native_eq s o s1 r t : native s o = (s1, r, t) -> step (q_net s) o = (q_net s1, r) /\ q_host s1 = q_host s /\ t = [(o, r)].
 Proof. unfold native. destruct (step (q_net s) o) as [n' r']. intro H. inversion H; subst. auto. Qed.
 
-Lemma cmd_epr_keep_net_run i s known r adj qid :
-  q_net (fst (fst (cmd_epr_keep i s known r adj qid))) = run (q_net s) (tops (snd (cmd_epr_keep i s known r adj qid))).
+Lemma clear_pid_net_run s p c : q_net (fst (fst (clear_pid s p c))) = run (q_net s) (tops (snd (clear_pid s p c))).
+Proof.
+  unfold clear_pid. destruct (virt_of (q_host s) p) as [hd|]; [|reflexivity].
+  pose proof (native_net_run s (OMeas hd false c)) as N. destruct (native s (OMeas hd false c)) as [[s1 r] tr]. simpl in N.
+  destruct r; exact N.
+Qed.
+Lemma epr_cleanup_net_run ps : forall s coins,
+  q_net (fst (epr_cleanup s ps coins)) = run (q_net s) (tops (snd (epr_cleanup s ps coins))).
+Proof.
+  induction ps as [|p t IH]; intros s coins; cbn [epr_cleanup]; [reflexivity|].
+  destruct (virt_of (q_host s) p); [|apply IH].
+  pose proof (clear_pid_net_run s p (hd false coins)) as N.
+  destruct (clear_pid s p (hd false coins)) as [[s1 ok] tr]. cbn [fst snd] in N. destruct ok; [|exact N].
+  pose proof (IH s1 (tl coins)) as N2. destruct (epr_cleanup s1 t (tl coins)) as [s2 tr2]. cbn [fst snd] in *.
+  unfold tops in *. rewrite map_app, run_app, <- N. exact N2.
+Qed.
+Lemma epr_fail_net_run s0 s qid coins tr : q_net s = run (q_net s0) (tops tr) ->
+  q_net (fst (fst (epr_fail s qid coins tr))) = run (q_net s0) (tops (snd (epr_fail s qid coins tr))).
+Proof.
+  intro N. unfold epr_fail. pose proof (epr_cleanup_net_run [PP qid; PM qid] s coins) as C.
+  destruct (epr_cleanup s [PP qid; PM qid] coins) as [sc tc]. cbn [fst snd] in *.
+  unfold tops in *. rewrite map_app, run_app, <- N. exact C.
+Qed.
+
+Lemma cmd_epr_keep_net_run i s known r adj qid coins :
+  q_net (fst (fst (cmd_epr_keep i s known r adj qid coins))) = run (q_net s) (tops (snd (cmd_epr_keep i s known r adj qid coins))).
 Proof.
   unfold cmd_epr_keep. destruct (negb (epr_gate known i r adj)); [reflexivity|].
   pose proof (cmd_new_net_run i s (PP qid)) as N1.
-  destruct (cmd_new i s (PP qid)) as [[s1 ok1] t1]. simpl in N1. destruct (negb ok1); [exact N1|].
+  destruct (cmd_new i s (PP qid)) as [[s1 ok1] t1]. simpl in N1. destruct (negb ok1); [apply epr_fail_net_run; exact N1|].
   pose proof (cmd_new_net_run i s1 (PM qid)) as N2.
   destruct (cmd_new i s1 (PM qid)) as [[s2 ok2] t2]. simpl in N2.
   assert (N12 : q_net s2 = run (q_net s) (tops (t1 ++ t2))) by (unfold tops in *; rewrite map_app, run_app, <- N1; exact N2).
-  destruct (negb ok2); [exact N12|].
-  destruct (virt_of (q_host s2) (PP qid)) as [h1|]; [|exact N12].
-  destruct (virt_of (q_host s2) (PM qid)) as [h2|]; [|exact N12].
+  destruct (negb ok2); [apply epr_fail_net_run; exact N12|].
+  destruct (virt_of (q_host s2) (PP qid)) as [h1|]; [|apply epr_fail_net_run; exact N12].
+  destruct (virt_of (q_host s2) (PM qid)) as [h2|]; [|apply epr_fail_net_run; exact N12].
   pose proof (native_net_run s2 (OGate1 h1 NH)) as N3. destruct (native s2 (OGate1 h1 NH)) as [[s3 r3] t3]. simpl in N3.
   pose proof (native_net_run s3 (OGate2 h1 h2 NCnot)) as N4. destruct (native s3 (OGate2 h1 h2 NCnot)) as [[s4 r4] t4]. simpl in N4.
   pose proof (native_net_run s4 (OSend h2 r)) as N5. destruct (native s4 (OSend h2 r)) as [[s5 r5] t5]. simpl in N5.
   assert (N15 : q_net s5 = run (q_net s) (tops (t1 ++ t2 ++ t3 ++ t4 ++ t5))).
   { unfold tops in *. rewrite !map_app, !run_app. rewrite <- N1, <- N2, <- N3, <- N4. exact N5. }
-  destruct r5; exact N15.
+  destruct r5; try (apply epr_fail_net_run; exact N15). exact N15.
 Qed.
 
-(* ---- a pair creation that is refused without leaving temporaries changes nothing -------------------------------------------- *)
-Lemma epr_keep_clean_failure i s known r adj qid :
-  snd (fst (cmd_epr_keep i s known r adj qid)) <> RDone None ->
-  (forall v, ~ In (ONew i, Ok v) (snd (cmd_epr_keep i s known r adj qid))) ->
-  fst (fst (cmd_epr_keep i s known r adj qid)) = s.
+(* ---- a pair creation that fails: the temporaries that exist are removed again ----------------------------------------------------- *)
+Lemma filter_drop_mid_vn (l l2 : list (nat * nat)) n a : ~ In a (map snd l) -> ~ In a (map snd l2) ->
+  filter (fun p => negb (Nat.eqb (snd p) a)) (l ++ (n, a) :: l2) = l ++ l2.
 Proof.
-  unfold cmd_epr_keep. destruct (negb (epr_gate known i r adj)); [reflexivity|].
+  intros H1 H2. rewrite filter_app. cbn [filter snd]. rewrite Nat.eqb_refl. cbn [negb].
+  assert (K : forall x : list (nat * nat), ~ In a (map snd x) -> filter (fun p => negb (Nat.eqb (snd p) a)) x = x).
+  { induction x as [|y t IH]; simpl; auto. intro H. destruct (Nat.eqb_spec (snd y) a); simpl.
+    - exfalso. apply H. auto.
+    - f_equal. apply IH. intro; apply H; auto. }
+  rewrite (K l H1), (K l2 H2). reflexivity.
+Qed.
+
+Lemma premove_comm k k' l : premove k (premove k' l) = premove k' (premove k l).
+Proof.
+  induction l as [|[k0 v0] t IH]; simpl; auto.
+  destruct (pid_eqb k0 k') eqn:A; destruct (pid_eqb k0 k) eqn:B; simpl; rewrite ?A, ?B; congruence.
+Qed.
+Lemma premove_pset_neq k k' v l : k <> k' -> premove k (pset k' v l) = pset k' v (premove k l).
+Proof.
+  intro N. unfold pset. rewrite premove_app. simpl. destruct (pid_eqb_spec k' k); [congruence|]. f_equal.
+  apply premove_comm.
+Qed.
+
+Lemma with_qlist_same h : with_qlist h (h_qlist h) = h.
+Proof. destruct h; reflexivity. Qed.
+Lemma with_qlist_twice h a b : with_qlist (with_qlist h a) b = with_qlist h b.
+Proof. reflexivity. Qed.
+
+(* _clear_phys_qubit_in_memory of a qubit that node i holds: always succeeds; the handle leaves node i, nothing else moves *)
+Lemma clear_pid_live i s p c hd (l l2 : list (nat * nat)) num :
+  ginv (q_net s) -> plookup p (h_qlist (q_host s)) = Some hd ->
+  vn (nth_node (q_net s) i) = l ++ (num, hd) :: l2 -> ~ In hd (map snd l) -> ~ In hd (map snd l2) ->
+  exists s' v, clear_pid s p c = (s', true, [(OMeas hd false c, Ok v)]) /\
+    q_host s' = with_qlist (q_host s) (premove p (h_qlist (q_host s))) /\
+    ginv (q_net s') /\ next_hid (q_net s) <= next_hid (q_net s') /\
+    length (nodes (q_net s')) = length (nodes (q_net s)) /\
+    vn (nth_node (q_net s') i) = l ++ l2 /\
+    (forall j, j <> i -> vn (nth_node (q_net s') j) = vn (nth_node (q_net s) j)) /\
+    q_net s' = fst (step (q_net s) (OMeas hd false c)).
+Proof.
+  intros G P V N1 N2.
+  assert (Hin : In hd (hn (nth_node (q_net s) i))).
+  { rewrite hn_vn, V, map_app. apply in_or_app. right. simpl. auto. }
+  destruct (live_find (q_net s) i hd Hin) as (vi & q & F).
+  assert (vi = i) by (eapply holder_is; eauto; apply G). subst vi.
+  destruct (meas_live_ok (q_net s) hd false c i q (proj2 G) F) as (v & OK).
+  pose proof (step_meas_vn (q_net s) hd c v i q) as MV.
+  pose proof (step_meas_hn (q_net s) hd c v i q 0 OK F) as [_ ML].
+  pose proof (step_ginv (q_net s) (OMeas hd false c) G) as G'.
+  pose proof (step_next_mono (q_net s) (OMeas hd false c) (proj1 G)) as [Mo _].
+  unfold clear_pid, virt_of. rewrite P. unfold native.
+  destruct (step (q_net s) (OMeas hd false c)) as [n' r0] eqn:E. cbn [fst snd] in *. subst r0.
+  eexists _, v. split; [reflexivity|]. cbn [q_net q_host].
+  split; [reflexivity|]. split; [exact G'|]. split; [exact Mo|]. split; [exact ML|]. split; [|split; [|reflexivity]].
+  - rewrite (MV i eq_refl F), Nat.eqb_refl, V. apply filter_drop_mid_vn; auto.
+  - intros j Nj. rewrite (MV j eq_refl F). destruct (Nat.eqb_spec j i); [contradiction|reflexivity].
+Qed.
+
+(* the effect of a creation that does not succeed, whatever the reason (refused before any temporary exists, first or second
+   cmd_new refused, the receiver refuses the half): the request answers an error, the host's bookkeeping (unit modules, used
+   physical ids, qubitList, active applications) is exactly what it was, and so is the list of qubits EVERY node holds
+   (handles and virtual numbers, in order) *)
+Local Ltac same_state G0 :=
+  split; [reflexivity|]; split; [reflexivity|]; split; [exact G0|]; split; [apply le_n|]; split; [reflexivity|];
+  split; [intro; reflexivity|exists 0; split; [lia|symmetry; apply bump_0]].
+Lemma epr_keep_failure_effect i s known r adj qid coins s' res tr :
+  ginv (q_net s) ->
+  (forall k hd, plookup k (h_qlist (q_host s)) = Some hd -> exists p, k = PP p /\ p <> qid) ->
+  cmd_epr_keep i s known r adj qid coins = (s', res, tr) -> res <> RDone None ->
+  res = RErr /\ q_host s' = q_host s /\ ginv (q_net s') /\ next_hid (q_net s) <= next_hid (q_net s') /\
+  length (nodes (q_net s')) = length (nodes (q_net s)) /\
+  (forall j, vn (nth_node (q_net s') j) = vn (nth_node (q_net s) j)) /\
+  (* ... and, node by node, EVERYTHING but the register-number counter of node i (EprFailNode.v) *)
+  exists k, k <= 2 /\ nodes (q_net s') = upd (nodes (q_net s)) i (bump (nth_node (q_net s) i) k).
+Proof.
+  intros G0 KK. set (ql := h_qlist (q_host s)).
+  assert (NP : plookup (PP qid) ql = None).
+  { destruct (plookup (PP qid) ql) as [y|] eqn:Y; auto. destruct (KK _ _ Y) as (p & Ep & Np). inversion Ep. congruence. }
+  assert (NM : plookup (PM qid) ql = None).
+  { destruct (plookup (PM qid) ql) as [y|] eqn:Y; auto. destruct (KK _ _ Y) as (p & Ep & _). discriminate. }
+  unfold cmd_epr_keep. destruct (negb (epr_gate known i r adj)) eqn:Gt.
+  { intros H _. inversion H; subst. same_state G0. }
   destruct (cmd_new i s (PP qid)) as [[s1 [|]] t1] eqn:C1; cbn [negb].
-  - apply cmd_new_ok in C1 as (v & _ & _ & ->). intros R NI. exfalso.
-    destruct (cmd_new i s1 (PM qid)) as [[s2 ok2] t2]. destruct (negb ok2).
-    + apply (NI v). simpl. auto.
-    + destruct (virt_of (q_host s2) (PP qid)); [|apply (NI v); simpl; auto].
-      destruct (virt_of (q_host s2) (PM qid)); [|apply (NI v); simpl; auto].
-      destruct (native s2 _) as [[s3 r3] t3]. destruct (native s3 _) as [[s4 r4] t4]. destruct (native s4 _) as [[s5 r5] t5].
-      destruct r5; apply (NI v); simpl; auto.
-  - apply cmd_new_fail in C1 as [-> _]. reflexivity.
+  2: { (* the first cmd_new is refused: nothing to remove *)
+       apply cmd_new_fail in C1 as [-> _]. unfold epr_fail. cbn [epr_cleanup]. unfold virt_of. fold ql. rewrite NP, NM.
+       intros H _. inversion H; subst. same_state G0. }
+  apply cmd_new_ok in C1 as (v1 & S1 & Q1 & TT1).
+  set (a1 := next_hid (q_net s)) in *.
+  assert (E1 : q_net s1 = fst (step (q_net s) (ONew i))) by (rewrite S1; reflexivity).
+  assert (G1 : ginv (q_net s1)) by (rewrite E1; apply step_ginv; exact G0).
+  pose proof (new_ok_next _ _ _ _ S1) as X1. fold a1 in X1.
+  assert (VN1 : forall j, vn (nth_node (q_net s1) j) = if Nat.eqb j i then vn (nth_node (q_net s) i) ++ [(v1, a1)] else vn (nth_node (q_net s) j)).
+  { intro j. rewrite E1. apply (step_new_vn (q_net s) i v1 j). rewrite S1. reflexivity. }
+  assert (L1 : length (nodes (q_net s1)) = length (nodes (q_net s))) by (rewrite E1; apply step_length).
+  assert (FR1 : ~ In a1 (map snd (vn (nth_node (q_net s) i)))).
+  { rewrite <- hn_vn. intro Hin. pose proof (hn_lt _ _ _ (proj1 G0) Hin). fold a1 in H. lia. }
+  (* removing the first temporary alone from a state whose node i lists it last *)
+  assert (ONE : forall sx, q_host sx = q_host s1 -> q_net sx = q_net s1 -> forall cs tx,
+            exists sc tc, epr_fail sx qid cs tx = (sc, RErr, tc) /\ q_host sc = q_host s /\ ginv (q_net sc) /\
+              next_hid (q_net s) <= next_hid (q_net sc) /\ length (nodes (q_net sc)) = length (nodes (q_net s)) /\
+              (forall j, vn (nth_node (q_net sc) j) = vn (nth_node (q_net s) j)) /\
+              exists k, k <= 2 /\ nodes (q_net sc) = upd (nodes (q_net s)) i (bump (nth_node (q_net s) i) k)).
+  { intros sx HX NX cs tx. unfold epr_fail. cbn [epr_cleanup]. unfold virt_of. rewrite HX, Q1. cbn [h_qlist with_qlist]. fold ql.
+    rewrite plookup_pset_eq.
+    destruct (clear_pid_live i sx (PP qid) (hd false cs) a1 (vn (nth_node (q_net s) i)) [] v1) as (sA & vA & CA & QA & GA & MA & LA & VA & OA & NA).
+    { rewrite NX. exact G1. }
+    { rewrite HX, Q1. cbn [h_qlist with_qlist]. fold ql. apply plookup_pset_eq. }
+    { rewrite NX, VN1, Nat.eqb_refl. reflexivity. }
+    { exact FR1. }
+    { simpl. tauto. }
+    rewrite CA. rewrite QA, HX, Q1. cbn [h_qlist with_qlist]. fold ql.
+    rewrite premove_pset, (premove_absent _ _ NP), NM. cbn [app].
+    eexists _, _. split; [reflexivity|].
+    split. { rewrite QA, HX, Q1. cbn [h_qlist with_qlist]. fold ql. rewrite premove_pset, (premove_absent _ _ NP).
+             rewrite with_qlist_twice. apply with_qlist_same. }
+    split; [exact GA|]. split; [rewrite NX in MA; lia|]. split; [rewrite LA, NX; exact L1|]. split.
+    - intro j. destruct (Nat.eq_dec j i) as [->|Nj].
+      + rewrite VA, app_nil_r. reflexivity.
+      + rewrite (OA j Nj), NX, VN1. destruct (Nat.eqb_spec j i); [contradiction|reflexivity].
+    - exists 1. split; [lia|]. rewrite NA, NX, E1.
+      assert (OK1 : snd (step (q_net s) (ONew i)) = Ok v1) by (rewrite S1; reflexivity).
+      pose proof (one_temp_restored i (q_net s) v1 (hd false cs) G0 OK1) as R1. unfold run in R1. cbn [fold_left] in R1.
+      fold a1 in R1. rewrite R1. reflexivity. }
+  destruct (cmd_new i s1 (PM qid)) as [[s2 [|]] t2] eqn:C2; cbn [negb].
+  2: { (* the second cmd_new is refused: the first temporary is removed *)
+       apply cmd_new_fail in C2 as [-> _].
+       destruct (ONE s1 eq_refl eq_refl coins (t1 ++ t2)) as (sc & tc & EF & R).
+       rewrite EF. intros H _. inversion H; subst. split; [reflexivity|exact R]. }
+  apply cmd_new_ok in C2 as (v2 & S2 & Q2 & TT2).
+  set (a2 := next_hid (q_net s1)) in *.
+  assert (V1 : virt_of (q_host s2) (PP qid) = Some a1).
+  { unfold virt_of. rewrite Q2. cbn [h_qlist with_qlist]. rewrite plookup_pset_neq by discriminate.
+    rewrite Q1. cbn [h_qlist with_qlist]. apply plookup_pset_eq. }
+  assert (V2 : virt_of (q_host s2) (PM qid) = Some a2).
+  { unfold virt_of. rewrite Q2. cbn [h_qlist with_qlist]. apply plookup_pset_eq. }
+  rewrite V1, V2.
+  destruct (native s2 (OGate1 a1 NH)) as [[s3 r3] t3] eqn:C3. destruct (native s3 (OGate2 a1 a2 NCnot)) as [[s4 r4] t4] eqn:C4.
+  destruct (native s4 (OSend a2 r)) as [[s5 r5] t5] eqn:C5.
+  apply native_eq in C3 as (S3 & Q3 & TT3). apply native_eq in C4 as (S4 & Q4 & TT4). apply native_eq in C5 as (S5 & Q5 & TT5).
+  assert (E2 : q_net s2 = fst (step (q_net s1) (ONew i))) by (rewrite S2; reflexivity).
+  assert (E3 : q_net s3 = fst (step (q_net s2) (OGate1 a1 NH))) by (rewrite S3; reflexivity).
+  assert (E4 : q_net s4 = fst (step (q_net s3) (OGate2 a1 a2 NCnot))) by (rewrite S4; reflexivity).
+  assert (G2 : ginv (q_net s2)) by (rewrite E2; apply step_ginv; exact G1).
+  assert (G3 : ginv (q_net s3)) by (rewrite E3; apply step_ginv; exact G2).
+  assert (G4 : ginv (q_net s4)) by (rewrite E4; apply step_ginv; exact G3).
+  pose proof (new_ok_next _ _ _ _ S2) as X2. fold a2 in X2.
+  assert (M3 : next_hid (q_net s2) <= next_hid (q_net s3)) by (rewrite E3; apply step_next_mono; apply G2).
+  assert (M4 : next_hid (q_net s3) <= next_hid (q_net s4)) by (rewrite E4; apply step_next_mono; apply G3).
+  assert (VN2 : forall j, vn (nth_node (q_net s2) j) = if Nat.eqb j i then vn (nth_node (q_net s1) i) ++ [(v2, a2)] else vn (nth_node (q_net s1) j)).
+  { intro j. rewrite E2. apply (step_new_vn (q_net s1) i v2 j). rewrite S2. reflexivity. }
+  assert (VN3 : forall j, vn (nth_node (q_net s3) j) = vn (nth_node (q_net s2) j)).
+  { intro j. rewrite E3. apply (step_quiet_vn (q_net s2) (OGate1 a1 NH) j eq_refl). }
+  assert (VN4 : forall j, vn (nth_node (q_net s4) j) = vn (nth_node (q_net s3) j)).
+  { intro j. rewrite E4. apply (step_quiet_vn (q_net s3) (OGate2 a1 a2 NCnot) j eq_refl). }
+  assert (VI4 : vn (nth_node (q_net s4) i) = vn (nth_node (q_net s) i) ++ [(v1, a1); (v2, a2)]).
+  { rewrite VN4, VN3, VN2, Nat.eqb_refl, VN1, Nat.eqb_refl, <- app_assoc. reflexivity. }
+  assert (VJ4 : forall j, j <> i -> vn (nth_node (q_net s4) j) = vn (nth_node (q_net s) j)).
+  { intros j Nj. rewrite VN4, VN3, VN2. destruct (Nat.eqb_spec j i); [contradiction|]. rewrite VN1.
+    destruct (Nat.eqb_spec j i); [contradiction|reflexivity]. }
+  assert (L4 : length (nodes (q_net s4)) = length (nodes (q_net s))).
+  { rewrite E4, step_length, E3, step_length, E2, step_length. exact L1. }
+  assert (A12 : a2 = S a1) by (unfold a2; exact X1).
+  assert (FR2 : ~ In a2 (map snd (vn (nth_node (q_net s) i)))).
+  { rewrite <- hn_vn. intro Hin. pose proof (hn_lt _ _ _ (proj1 G0) Hin). fold a1 in H. lia. }
+  assert (QH5 : h_qlist (q_host s5) = pset (PM qid) a2 (pset (PP qid) a1 ql)).
+  { rewrite Q5, Q4, Q3, Q2. cbn [h_qlist with_qlist]. rewrite Q1. reflexivity. }
+  assert (BOTH : (forall v, r5 <> Ok v) -> forall tx,
+            exists sc tc, epr_fail s5 qid coins tx = (sc, RErr, tc) /\ q_host sc = q_host s /\ ginv (q_net sc) /\
+              next_hid (q_net s) <= next_hid (q_net sc) /\ length (nodes (q_net sc)) = length (nodes (q_net s)) /\
+              (forall j, vn (nth_node (q_net sc) j) = vn (nth_node (q_net s) j)) /\
+              exists k, k <= 2 /\ nodes (q_net sc) = upd (nodes (q_net s)) i (bump (nth_node (q_net s) i) k)).
+  { intros NOK tx.
+    assert (N5 : q_net s5 = q_net s4).
+    { pose proof (step_not_ok_same (q_net s4) (OSend a2 r)) as Y. rewrite S5 in Y. cbn [fst snd] in Y. apply Y; auto. }
+    unfold epr_fail. cbn [epr_cleanup]. unfold virt_of. rewrite QH5.
+    rewrite plookup_pset_neq by discriminate. rewrite plookup_pset_eq.
+    destruct (clear_pid_live i s5 (PP qid) (hd false coins) a1 (vn (nth_node (q_net s) i)) [(v2, a2)] v1)
+      as (sA & vA & CA & QA & GA & MA & LA & VA & OA & NA).
+    { rewrite N5. exact G4. }
+    { rewrite QH5. rewrite plookup_pset_neq by discriminate. apply plookup_pset_eq. }
+    { rewrite N5, VI4. reflexivity. }
+    { exact FR1. }
+    { simpl. intros [X|[]]. lia. }
+    rewrite CA.
+    assert (QLA : h_qlist (q_host sA) = pset (PM qid) a2 ql).
+    { rewrite QA. cbn [h_qlist with_qlist]. rewrite QH5. rewrite premove_pset_neq by discriminate.
+      rewrite premove_pset, (premove_absent _ _ NP). reflexivity. }
+    rewrite QLA, plookup_pset_eq.
+    destruct (clear_pid_live i sA (PM qid) (hd false (tl coins)) a2 (vn (nth_node (q_net s) i)) [] v2)
+      as (sB & vB & CB & QB & GB & MB & LB & VB & OB & NB).
+    { exact GA. }
+    { rewrite QLA. apply plookup_pset_eq. }
+    { exact VA. }
+    { exact FR2. }
+    { simpl. tauto. }
+    rewrite CB. cbn [epr_cleanup]. eexists _, _. split; [reflexivity|].
+    split.
+    { rewrite QB, QLA, premove_pset, (premove_absent _ _ NM). rewrite QA, with_qlist_twice, Q5, Q4, Q3, Q2, Q1, !with_qlist_twice.
+      apply with_qlist_same. }
+    split; [exact GB|]. split; [rewrite N5 in MA; lia|]. split; [rewrite LB, LA, N5; exact L4|]. split.
+    - intro j. destruct (Nat.eq_dec j i) as [->|Nj].
+      + rewrite VB, app_nil_r. reflexivity.
+      + rewrite (OB j Nj), (OA j Nj), N5. apply VJ4. exact Nj.
+    - exists 2. split; [lia|]. rewrite NB, NA, N5, E4, E3, E2, E1.
+      assert (OK1 : snd (step (q_net s) (ONew i)) = Ok v1) by (rewrite S1; reflexivity).
+      assert (OK2 : snd (step (fst (step (q_net s) (ONew i))) (ONew i)) = Ok v2) by (rewrite <- E1, S2; reflexivity).
+      pose proof (two_temps_restored i (q_net s) v1 v2 (hd false coins) (hd false (tl coins)) G0 OK1 OK2) as R2.
+      unfold run in R2. cbn [fold_left] in R2. fold a1 in R2. rewrite <- A12 in R2. rewrite R2. reflexivity. }
+  destruct r5 as [v5| | |].
+  - intros H ND. inversion H; subst. exfalso. apply ND. reflexivity.
+  - destruct (BOTH ltac:(intros; discriminate) (t1 ++ t2 ++ t3 ++ t4 ++ t5)) as (sc & tc & EF & R).
+    rewrite EF. intros H _. inversion H; subst. split; [reflexivity|exact R].
+  - destruct (BOTH ltac:(intros; discriminate) (t1 ++ t2 ++ t3 ++ t4 ++ t5)) as (sc & tc & EF & R).
+    rewrite EF. intros H _. inversion H; subst. split; [reflexivity|exact R].
+  - destruct (BOTH ltac:(intros; discriminate) (t1 ++ t2 ++ t3 ++ t4 ++ t5)) as (sc & tc & EF & R).
+    rewrite EF. intros H _. inversion H; subst. split; [reflexivity|exact R].
 Qed.
 
 (* ---- the effect of a successful creation on the handle lists ------------------------------------------------------------------ *)
-Lemma epr_keep_effect i s known r adj qid s' tr :
+Lemma epr_keep_effect i s known r adj qid coins s' tr :
   ginv (q_net s) -> (forall k hd, plookup k (h_qlist (q_host s)) = Some hd -> exists p, k = PP p) ->
-  cmd_epr_keep i s known r adj qid = (s', RDone None, tr) ->
+  cmd_epr_keep i s known r adj qid coins = (s', RDone None, tr) ->
   let a1 := next_hid (q_net s) in
   let x := pred (next_hid (q_net s')) in
   r <> i /\ r < length (nodes (q_net s)) /\
@@ -248,10 +479,12 @@ Lemma epr_keep_effect i s known r adj qid s' tr :
   (forall j, j <> i -> j <> r -> vn (nth_node (q_net s') j) = vn (nth_node (q_net s) j)).
 Proof.
   intros G0 KK. unfold cmd_epr_keep.
+  assert (F : forall s0 tr0, epr_fail s0 qid coins tr0 <> (s', RDone None, tr)).
+  { intros s0 tr0 E. pose proof (epr_fail_res s0 qid coins tr0) as R. rewrite E in R. discriminate. }
   destruct (negb (epr_gate known i r adj)) eqn:G; [discriminate|].
   apply negb_false_iff in G. apply epr_gate_iff in G as (_ & Nr & _).
-  destruct (cmd_new i s (PP qid)) as [[s1 [|]] t1] eqn:C1; cbn [negb]; [|discriminate].
-  destruct (cmd_new i s1 (PM qid)) as [[s2 [|]] t2] eqn:C2; cbn [negb]; [|discriminate].
+  destruct (cmd_new i s (PP qid)) as [[s1 [|]] t1] eqn:C1; cbn [negb]; [|intro E; destruct (F _ _ E)].
+  destruct (cmd_new i s1 (PM qid)) as [[s2 [|]] t2] eqn:C2; cbn [negb]; [|intro E; destruct (F _ _ E)].
   apply cmd_new_ok in C1 as (v1 & S1 & Q1 & TT1). apply cmd_new_ok in C2 as (v2 & S2 & Q2 & TT2).
   set (a1 := next_hid (q_net s)) in *. set (a2 := next_hid (q_net s1)) in *.
   assert (V1 : virt_of (q_host s2) (PP qid) = Some a1).
@@ -263,7 +496,7 @@ Proof.
   destruct (native s2 (OGate1 a1 NH)) as [[s3 r3] t3] eqn:C3. destruct (native s3 (OGate2 a1 a2 NCnot)) as [[s4 r4] t4] eqn:C4.
   destruct (native s4 (OSend a2 r)) as [[s5 r5] t5] eqn:C5.
   apply native_eq in C3 as (S3 & Q3 & TT3). apply native_eq in C4 as (S4 & Q4 & TT4). apply native_eq in C5 as (S5 & Q5 & TT5).
-  destruct r5 as [v5| | |]; try discriminate. intro H. inversion H; subst s' tr. clear H. cbn [q_net q_host].
+  destruct r5 as [v5| | |]; try (intro E; destruct (F _ _ E)). clear F. intro H. inversion H; subst s' tr. clear H. cbn [q_net q_host].
   (* the network, step by step *)
   assert (E1 : q_net s1 = fst (step (q_net s) (ONew i))) by (rewrite S1; reflexivity).
   assert (E2 : q_net s2 = fst (step (q_net s1) (ONew i))) by (rewrite S2; reflexivity).
@@ -390,7 +623,7 @@ Proof. intro H. rewrite exec_net_run. apply run_hid_inv. exact H. Qed.
 (* every clean action keeps the global invariant *)
 Theorem nstep_ninv s x : ninv s -> clean s x -> ninv (nstep s x).
 Proof.
-  intros [GL GG GH GK GN] C. unfold nstep. destruct x as [i q|i app a known r adj rsock|i app a sock]; cbn [nstep_r].
+  intros [GL GG GH GK GN] C. unfold nstep. destruct x as [i q|i app a known r adj rsock coins|i app a sock]; cbn [nstep_r].
   - (* an instruction of host i *)
     destruct (Nat.ltb_spec i (length (n_hosts s))) as [Hi|Hi]; [|constructor; auto].
     pose proof (xexec_v i _ _ q (GH i Hi)) as [T1 V1].
@@ -415,10 +648,10 @@ Proof.
       * unfold hid_of_num. rewrite (proj1 V1) by exact Ne. apply GN. exact He.
   - (* pair creation by host i towards node r *)
     destruct (Nat.ltb_spec i (length (n_hosts s))) as [Hi|Hi]; [|constructor; auto].
-    destruct C as [C1 C2]. cbv zeta in C1, C2.
+    pose proof C as C2. cbn [clean] in C2. cbv zeta in C2. clear C.
     set (qs := mkQ (n_net s) (host_at s i)) in *. set (qid := fresh_id (h_used (host_at s i))) in *.
     pose proof (GH i Hi) as Ti. fold qs in Ti.
-    destruct (cmd_epr_keep i qs known r adj qid) as [[s1 res] tr] eqn:CE. cbn [fst snd] in *.
+    destruct (cmd_epr_keep i qs known r adj qid coins) as [[s1 res] tr] eqn:CE. cbn [fst snd] in *.
     assert (DONE : res = RDone None \/ res <> RDone None) by (destruct res as [[v|]| |]; auto; right; discriminate).
     destruct DONE as [-> | ND].
     + (* success *)
@@ -427,7 +660,7 @@ Proof.
       { unfold addr_free in AF. destruct (alookup app (h_units (host_at s i))) as [um0|]; [|discriminate].
         destruct (nth_error um0 a) as [[p|]|] eqn:EA; inversion AF; subst; auto. }
       destruct EUA as [EU EA].
-      destruct (epr_keep_effect i qs known r adj qid s1 tr GG)
+      destruct (epr_keep_effect i qs known r adj qid coins s1 tr GG)
         as (Nr & Lr & QH & G1 & A1 & A2 & HI & HR & HJ & LL & (n1 & VI) & VR & VF & VJ).
       { intros k hd Hk. destruct (x_keys _ _ _ Ti k hd Hk) as (p & E & _). eauto. }
       { exact CE. }
@@ -469,14 +702,22 @@ Proof.
            destruct (Nat.eq_dec (p_node e) r) as [E|Ner]; [rewrite E in *; rewrite VR; apply lookup_app_l; exact L|].
            rewrite VJ by auto. exact L.
         -- subst e. unfold p_node, p_num, p_hd, hid_of_num. cbn [fst snd]. rewrite VR. apply lookup_app_fresh. exact VF.
-    + (* refused: no temporary was created, nothing changed *)
-      assert (E : s1 = qs).
-      { pose proof (epr_keep_clean_failure i qs known r adj qid) as X. rewrite CE in X. cbn [fst snd] in X. apply X; auto.
-        intros v Hin. apply C1. unfold leaves_temporaries. rewrite CE. cbn [fst snd]. split; eauto. }
-      subst s1. subst qs. cbn [q_net q_host].
+    + (* not created -- refused before any temporary existed, or failed afterwards and cleaned up: every host and every node's
+         list of held qubits is what it was *)
+      destruct (epr_keep_failure_effect i qs known r adj qid coins s1 res tr GG) as (RE & QH & G1 & Mo & LL & VV & NB); auto.
+      { intros k hd Hk. destruct (x_keys _ _ _ Ti k hd Hk) as (p & E & Hu). exists p. split; auto.
+        intro; subst p. apply (fresh_id_not_in (h_used (host_at s i))). exact Hu. }
+      subst res. cbn [fst]. subst qs. cbn [q_net q_host] in *. rewrite QH.
       assert (E : upd (n_hosts s) i (host_at s i) = n_hosts s) by (apply upd_same).
-      destruct res as [[v|]| |]; try (exfalso; apply ND; reflexivity); cbn [fst];
-        rewrite E; destruct s; constructor; auto.
+      rewrite E.
+      assert (HH : forall j, hn (nth_node (q_net s1) j) = hn (nth_node (n_net s) j)) by (intro j; rewrite !hn_vn, VV; reflexivity).
+      constructor; cbn [n_net n_hosts n_pend].
+      * rewrite LL. exact GL.
+      * exact G1.
+      * intros j Hj. unfold host_at. cbn [n_hosts]. fold (host_at s j).
+        apply (tinvx_frame j _ (q_net s1) (mkQ (n_net s) (host_at s j))); auto.
+      * intros j Hj. unfold host_at. cbn [n_hosts]. fold (host_at s j). apply (leakfree_net (n_net s)). auto.
+      * intros e He. unfold hid_of_num. rewrite VV. apply GN. exact He.
   - (* host i polls for a delivered half *)
     destruct (Nat.ltb_spec i (length (n_hosts s))) as [Hi|Hi]; [|constructor; auto].
     destruct (take_pend i sock (n_pend s)) as [[[num hd] pd']|] eqn:TP; [|constructor; auto].
@@ -535,13 +776,13 @@ Qed.
 (* ---- the shared network is a reachable Model-V state ---------------------------------------------------------------------------- *)
 Lemma nstep_net_run s x : exists ops, n_net (nstep s x) = run (n_net s) ops.
 Proof.
-  unfold nstep. destruct x as [i q|i app a known r adj rsock|i app a sock]; cbn [nstep_r].
+  unfold nstep. destruct x as [i q|i app a known r adj rsock coins|i app a sock]; cbn [nstep_r].
   - destruct (Nat.ltb i (length (n_hosts s))); [|exists []; reflexivity].
     pose proof (exec_net_run i (mkQ (n_net s) (host_at s i)) q) as NR.
     destruct (exec i (mkQ (n_net s) (host_at s i)) q) as [[s' res] tr]. cbn [fst snd q_net] in *. eauto.
   - destruct (Nat.ltb i (length (n_hosts s))); [|exists []; reflexivity].
-    pose proof (cmd_epr_keep_net_run i (mkQ (n_net s) (host_at s i)) known r adj (fresh_id (h_used (host_at s i)))) as NR.
-    destruct (cmd_epr_keep _ _ _ _ _ _) as [[s1 res] tr]. cbn [fst snd q_net] in *.
+    pose proof (cmd_epr_keep_net_run i (mkQ (n_net s) (host_at s i)) known r adj (fresh_id (h_used (host_at s i))) coins) as NR.
+    destruct (cmd_epr_keep _ _ _ _ _ _ _) as [[s1 res] tr]. cbn [fst snd q_net] in *.
     destruct res as [[v|]| |]; cbn [fst n_net]; eauto.
   - destruct (Nat.ltb i (length (n_hosts s))); [|exists []; reflexivity].
     destruct (take_pend i sock (n_pend s)) as [[[num hd] pd']|]; [|exists []; reflexivity].
@@ -568,36 +809,58 @@ Proof. eapply Forall_impl; [|apply (cmd_new_own i s p)]. intros o Ho; apply (own
 Lemma exec_core i s q : Forall core_op (tops (snd (exec i s q))).
 Proof. eapply Forall_impl; [|apply (exec_own i s q)]. intros o Ho; apply (own_op_core i o Ho). Qed.
 
-Lemma cmd_epr_keep_core i s known r adj qid : Forall core_op (tops (snd (cmd_epr_keep i s known r adj qid))).
+Lemma clear_pid_core s p c : Forall core_op (tops (snd (clear_pid s p c))).
+Proof.
+  unfold clear_pid. destruct (virt_of (q_host s) p) as [hd|]; [|constructor].
+  pose proof (native_core s (OMeas hd false c) I) as N. destruct (native s (OMeas hd false c)) as [[s1 r] tr]. simpl in N.
+  destruct r; exact N.
+Qed.
+Lemma epr_cleanup_core ps : forall s coins, Forall core_op (tops (snd (epr_cleanup s ps coins))).
+Proof.
+  induction ps as [|p t IH]; intros s coins; cbn [epr_cleanup]; [constructor|].
+  destruct (virt_of (q_host s) p); [|apply IH].
+  pose proof (clear_pid_core s p (hd false coins)) as N.
+  destruct (clear_pid s p (hd false coins)) as [[s1 ok] tr]. cbn [fst snd] in N. destruct ok; [|exact N].
+  pose proof (IH s1 (tl coins)) as N2. destruct (epr_cleanup s1 t (tl coins)) as [s2 tr2]. cbn [fst snd] in *.
+  unfold tops in *. rewrite map_app. apply Forall_app; auto.
+Qed.
+Lemma epr_fail_core s qid coins tr : Forall core_op (tops tr) -> Forall core_op (tops (snd (epr_fail s qid coins tr))).
+Proof.
+  intro N. unfold epr_fail. pose proof (epr_cleanup_core [PP qid; PM qid] s coins) as C.
+  destruct (epr_cleanup s [PP qid; PM qid] coins) as [sc tc]. cbn [fst snd] in *.
+  unfold tops in *. rewrite map_app. apply Forall_app; auto.
+Qed.
+
+Lemma cmd_epr_keep_core i s known r adj qid coins : Forall core_op (tops (snd (cmd_epr_keep i s known r adj qid coins))).
 Proof.
   unfold cmd_epr_keep. destruct (negb (epr_gate known i r adj)); [constructor|].
   pose proof (cmd_new_core i s (PP qid)) as C1.
-  destruct (cmd_new i s (PP qid)) as [[s1 ok1] t1]. simpl in C1. destruct (negb ok1); [exact C1|].
+  destruct (cmd_new i s (PP qid)) as [[s1 ok1] t1]. simpl in C1. destruct (negb ok1); [apply epr_fail_core; exact C1|].
   pose proof (cmd_new_core i s1 (PM qid)) as C2.
   destruct (cmd_new i s1 (PM qid)) as [[s2 ok2] t2]. simpl in C2.
   assert (C12 : Forall core_op (tops (t1 ++ t2))) by (unfold tops in *; rewrite map_app; apply Forall_app; auto).
-  destruct (negb ok2); [exact C12|].
-  destruct (virt_of (q_host s2) (PP qid)) as [h1|]; [|exact C12].
-  destruct (virt_of (q_host s2) (PM qid)) as [h2|]; [|exact C12].
+  destruct (negb ok2); [apply epr_fail_core; exact C12|].
+  destruct (virt_of (q_host s2) (PP qid)) as [h1|]; [|apply epr_fail_core; exact C12].
+  destruct (virt_of (q_host s2) (PM qid)) as [h2|]; [|apply epr_fail_core; exact C12].
   pose proof (native_core s2 (OGate1 h1 NH) I) as C3. destruct (native s2 (OGate1 h1 NH)) as [[s3 r3] t3]. simpl in C3.
   pose proof (native_core s3 (OGate2 h1 h2 NCnot) I) as C4. destruct (native s3 (OGate2 h1 h2 NCnot)) as [[s4 r4] t4]. simpl in C4.
   pose proof (native_core s4 (OSend h2 r) I) as C5. destruct (native s4 (OSend h2 r)) as [[s5 r5] t5]. simpl in C5.
   assert (C15 : Forall core_op (tops (t1 ++ t2 ++ t3 ++ t4 ++ t5))).
   { unfold tops in *. rewrite !map_app. repeat (apply Forall_app; split); auto. }
-  destruct r5; exact C15.
+  destruct r5; try (apply epr_fail_core; exact C15). exact C15.
 Qed.
 
 Lemma nstep_net_run_core s x : exists ops, Forall core_op ops /\ n_net (nstep s x) = run (n_net s) ops.
 Proof.
-  unfold nstep. destruct x as [i q|i app a known r adj rsock|i app a sock]; cbn [nstep_r].
+  unfold nstep. destruct x as [i q|i app a known r adj rsock coins|i app a sock]; cbn [nstep_r].
   - destruct (Nat.ltb i (length (n_hosts s))); [|exists []; split; [constructor|reflexivity]].
     pose proof (exec_net_run i (mkQ (n_net s) (host_at s i)) q) as NR.
     pose proof (exec_core i (mkQ (n_net s) (host_at s i)) q) as NC.
     destruct (exec i (mkQ (n_net s) (host_at s i)) q) as [[s' res] tr]. cbn [fst snd q_net] in *. eauto.
   - destruct (Nat.ltb i (length (n_hosts s))); [|exists []; split; [constructor|reflexivity]].
-    pose proof (cmd_epr_keep_net_run i (mkQ (n_net s) (host_at s i)) known r adj (fresh_id (h_used (host_at s i)))) as NR.
-    pose proof (cmd_epr_keep_core i (mkQ (n_net s) (host_at s i)) known r adj (fresh_id (h_used (host_at s i)))) as NC.
-    destruct (cmd_epr_keep _ _ _ _ _ _) as [[s1 res] tr]. cbn [fst snd q_net] in *.
+    pose proof (cmd_epr_keep_net_run i (mkQ (n_net s) (host_at s i)) known r adj (fresh_id (h_used (host_at s i))) coins) as NR.
+    pose proof (cmd_epr_keep_core i (mkQ (n_net s) (host_at s i)) known r adj (fresh_id (h_used (host_at s i))) coins) as NC.
+    destruct (cmd_epr_keep _ _ _ _ _ _ _) as [[s1 res] tr]. cbn [fst snd q_net] in *.
     destruct res as [[v|]| |]; cbn [fst n_net]; eauto.
   - destruct (Nat.ltb i (length (n_hosts s))); [|exists []; split; [constructor|reflexivity]].
     destruct (take_pend i sock (n_pend s)) as [[[num hd] pd']|]; [|exists []; split; [constructor|reflexivity]].
@@ -617,9 +880,9 @@ Qed.
 Lemma nrun_hosts_length xs : forall s, length (n_hosts (nrun s xs)) = length (n_hosts s).
 Proof.
   induction xs as [|x t IH]; intros s0; simpl; auto. rewrite IH. unfold nstep.
-  destruct x as [i q|i app a known r adj rsock|i app a sock]; cbn [nstep_r].
+  destruct x as [i q|i app a known r adj rsock coins|i app a sock]; cbn [nstep_r].
   - destruct (Nat.ltb i (length (n_hosts s0))); auto. destruct (exec _ _ _) as [[s' res] tr]. cbn [fst n_hosts]. apply upd_length.
-  - destruct (Nat.ltb i (length (n_hosts s0))); auto. destruct (cmd_epr_keep _ _ _ _ _ _) as [[s1 res] tr].
+  - destruct (Nat.ltb i (length (n_hosts s0))); auto. destruct (cmd_epr_keep _ _ _ _ _ _ _) as [[s1 res] tr].
     destruct res as [[v|]| |]; cbn [fst n_hosts]; apply upd_length.
   - destruct (Nat.ltb i (length (n_hosts s0))); auto. destruct (take_pend _ _ _) as [[[num hd] pd']|]; auto.
     destruct (hid_of_num _ _); auto. destruct (plookup _ _); cbn [fst n_hosts]; auto. apply upd_length.
@@ -749,6 +1012,73 @@ Proof.
   apply (in_pend_at _ _ Hin).
 Qed.
 
+(* failed_creation_restores -- the positive statement the former finding C11:epr-temporaries refuted.  In every state the
+   invariant describes (in particular after every clean history, nrun_ninv), a pair creation that does not succeed -- refused by
+   the checks, by the creator's own node at the first or the second cmd_new, or by the receiving node at the hand-over --
+   answers an error and leaves behind exactly what was there: every host's bookkeeping (unit modules, used physical ids,
+   qubitList, active applications; the creator's included), the receive deques, and for EVERY node the list of qubits it holds
+   (the virtualQubit records themselves: handle, number, simulating node, simulated number -- in order), the list of qubits it
+   simulates, its registers (number, capacity, size, tableau) and its register count.  Only two counters that are never
+   re-used have advanced: the handle counter and the creator node's register-number counter. *)
+Theorem failed_creation_restores s i app a known r adj rsock coins :
+  ninv s -> i < length (n_hosts s) ->
+  snd (nstep_r s (ACreate i app a known r adj rsock coins)) <> RDone None ->
+  let s' := nstep s (ACreate i app a known r adj rsock coins) in
+  snd (nstep_r s (ACreate i app a known r adj rsock coins)) = RErr /\
+  n_hosts s' = n_hosts s /\ n_pend s' = n_pend s /\
+  forall j, virt (nth_node (n_net s') j) = virt (nth_node (n_net s) j) /\
+            sims (nth_node (n_net s') j) = sims (nth_node (n_net s) j) /\
+            regs (nth_node (n_net s') j) = regs (nth_node (n_net s) j) /\
+            numRegs (nth_node (n_net s') j) = numRegs (nth_node (n_net s) j) /\
+            held (n_net s') j = held (n_net s) j.
+Proof.
+  intros I Hi. unfold nstep. cbn [nstep_r]. destruct (Nat.ltb_spec i (length (n_hosts s))) as [_|]; [|lia].
+  pose proof (g_host s I i Hi) as Ti.
+  destruct (cmd_epr_keep i (mkQ (n_net s) (host_at s i)) known r adj (fresh_id (h_used (host_at s i))) coins) as [[s1 res] tr] eqn:CE.
+  assert (SR : forall (A : Type) (x y : A), snd (match res with RDone None => (x, res) | _ => (y, res) end) = res)
+    by (intros; destruct res as [[v|]| |]; reflexivity).
+  rewrite SR. intro ND.
+  assert (KK : forall k hd, plookup k (h_qlist (host_at s i)) = Some hd -> exists p, k = PP p /\ p <> fresh_id (h_used (host_at s i))).
+  { intros k hd Hk. destruct (x_keys _ _ _ Ti k hd Hk) as (p & E & Hu). exists p. split; auto.
+    intro; subst p. apply (fresh_id_not_in (h_used (host_at s i))). exact Hu. }
+  destruct (epr_keep_failure_effect i (mkQ (n_net s) (host_at s i)) known r adj _ coins s1 res tr (g_ginv s I) KK CE ND)
+    as (RE & QH & G1 & Mo & LL & VV & NB).
+  subst res. cbn [fst snd n_net n_hosts n_pend q_net q_host] in *. rewrite QH.
+  split; [reflexivity|]. split; [apply upd_same|]. split; [reflexivity|].
+  destruct NB as (k & _ & NB). intro j.
+  destruct (bumped_same_fields (n_net s) (q_net s1) i k NB j) as (A & B & C & D & _).
+  split; [exact A|]. split; [exact B|]. split; [exact C|]. split; [exact D|]. rewrite !held_hn, !hn_vn, VV. reflexivity.
+Qed.
+
+(* the same for one host, at the level of cmd_epr itself: whatever the creator held (qubitList, used ids, unit modules) and
+   whatever any node held is unchanged, the host's invariant still holds over the new network *)
+Theorem failed_creation_leaves_creator i ex s known r adj coins :
+  tinvx i ex s ->
+  let c := cmd_epr_keep i s known r adj (fresh_id (h_used (q_host s))) coins in
+  snd (fst c) <> RDone None ->
+  snd (fst c) = RErr /\ q_host (fst (fst c)) = q_host s /\ tinvx i ex (fst (fst c)) /\
+  forall j, virt (nth_node (q_net (fst (fst c))) j) = virt (nth_node (q_net s) j) /\
+            sims (nth_node (q_net (fst (fst c))) j) = sims (nth_node (q_net s) j) /\
+            regs (nth_node (q_net (fst (fst c))) j) = regs (nth_node (q_net s) j) /\
+            numRegs (nth_node (q_net (fst (fst c))) j) = numRegs (nth_node (q_net s) j) /\
+            held (q_net (fst (fst c))) j = held (q_net s) j.
+Proof.
+  intros T c ND. unfold c in *. clear c.
+  destruct (cmd_epr_keep i s known r adj (fresh_id (h_used (q_host s))) coins) as [[s1 res] tr] eqn:CE. cbn [fst snd] in *.
+  assert (GG : ginv (q_net s)) by (split; [apply (inv_net _ (x_h _ _ _ T))|apply (x_inv _ _ _ T)]).
+  assert (KK : forall k hd, plookup k (h_qlist (q_host s)) = Some hd -> exists p, k = PP p /\ p <> fresh_id (h_used (q_host s))).
+  { intros k hd Hk. destruct (x_keys _ _ _ T k hd Hk) as (p & E & Hu). exists p. split; auto.
+    intro; subst p. apply (fresh_id_not_in (h_used (q_host s))). exact Hu. }
+  destruct (epr_keep_failure_effect i s known r adj _ coins s1 res tr GG KK CE ND) as (RE & QH & G1 & Mo & LL & VV & NB).
+  assert (HH : forall j, hn (nth_node (q_net s1) j) = hn (nth_node (q_net s) j)) by (intro j; rewrite !hn_vn, VV; reflexivity).
+  split; [exact RE|]. split; [exact QH|]. split.
+  - destruct s1 as [n1 h1]. cbn [q_net q_host] in *. subst h1. destruct s as [n0 h0]. cbn [q_net q_host] in *.
+    apply (tinvx_frame i ex n1 (mkQ n0 h0)); auto.
+  - destruct NB as (k & _ & NB). intro j.
+    destruct (bumped_same_fields (q_net s) (q_net s1) i k NB j) as (A & B & C & D & _).
+    split; [exact A|]. split; [exact B|]. split; [exact C|]. split; [exact D|]. rewrite !held_hn, HH. reflexivity.
+Qed.
+
 (* ---- `cleans` is decidable (for the examples) ---------------------------------------------------------------------------------------- *)
 Definition is_done_none (r : qres) : bool := match r with RDone None => true | _ => false end.
 Definition has_new_ok (i : nat) (tr : ntrace) : bool :=
@@ -757,9 +1087,9 @@ Definition addr_freeb (h : host) (app a : nat) : bool := match addr_free h app a
 Definition cleanb (s : nst) (x : nact) : bool :=
   match x with
   | AInstr i q => fresh_initb (mkQ (n_net s) (host_at s i)) q
-  | ACreate i app a known r adj rsock =>
-      let c := cmd_epr_keep i (mkQ (n_net s) (host_at s i)) known r adj (fresh_id (h_used (host_at s i))) in
-      if is_done_none (snd (fst c)) then addr_freeb (host_at s i) app a else negb (has_new_ok i (snd c))
+  | ACreate i app a known r adj rsock coins =>
+      let c := cmd_epr_keep i (mkQ (n_net s) (host_at s i)) known r adj (fresh_id (h_used (host_at s i))) coins in
+      if is_done_none (snd (fst c)) then addr_freeb (host_at s i) app a else true
   | ARecv i app a sock =>
       match take_pend i sock (n_pend s) with None => true | Some _ => addr_freeb (host_at s i) app a end
   end.
@@ -768,20 +1098,14 @@ Fixpoint cleansb (s : nst) (xs : list nact) : bool :=
 
 Lemma cleanb_ok s x : cleanb s x = true -> clean s x.
 Proof.
-  destruct x as [i q|i app a known r adj rsock|i app a sock]; cbn [cleanb clean].
+  destruct x as [i q|i app a known r adj rsock coins|i app a sock]; cbn [cleanb clean].
   - intros H app m E. subst q. cbn [fresh_initb q_host] in H. cbn [q_host].
     destruct (alookup app (h_units (host_at s i))); [discriminate|reflexivity].
-  - cbv zeta. unfold leaves_temporaries, addr_freeb.
-    destruct (cmd_epr_keep _ _ _ _ _ _) as [[s1 res] tr]. cbn [fst snd].
+  - cbv zeta. unfold addr_freeb.
+    destruct (cmd_epr_keep _ _ _ _ _ _ _) as [[s1 res] tr]. cbn [fst snd].
     destruct (is_done_none res) eqn:D.
-    + intro H. split.
-      * intros [N _]. apply N. destruct res as [[v|]| |]; try discriminate. reflexivity.
-      * intros _ E. rewrite E in H. discriminate.
-    + intro H. apply negb_true_iff in H. split.
-      * intros [_ (v & Hin)]. assert (X : has_new_ok i tr = true).
-        { unfold has_new_ok. apply existsb_exists. exists (ONew i, Ok v). split; auto. apply Nat.eqb_refl. }
-        congruence.
-      * intro E. subst res. discriminate.
+    + intros H E. destruct (addr_free (host_at s i) app a); [discriminate|discriminate].
+    + intros _ E. subst res. discriminate.
   - unfold addr_freeb. destruct (take_pend i sock (n_pend s)); [|intros _ N; exfalso; apply N; reflexivity].
     intros H _ E. rewrite E in H. discriminate.
 Qed.
